@@ -264,3 +264,11 @@ def rules(t):
     out = _rules_c05_w5(t)
     shared.share(t, out, "C05.i", "a connect token is bound to the first address it is seen from on every path that answers it (also when the answer is ConnectionDenied): no reply leaves handle_connection_request before the token-reuse test", "C19", ("C19.h",))
     return out
+
+_rules_C05_w5d = rules
+def rules(t, *a, **kw):
+    import rules.wave5 as W5
+    out = _rules_C05_w5d(t, *a, **kw)
+    out.append(W5.request_fields_prov(t, "C05.j"))
+    out.append(W5.token_history_writers(t, "C05.k"))
+    return out
